@@ -348,6 +348,37 @@ func (fr *frame) checkNilResult(ptr ssa.Value, st *bstate, pos token.Pos) {
 	if !f.sweep["nilresult"] || f.dry || fr.recovers() {
 		return
 	}
+	if ld, ok := ptr.(*ssa.UnOp); ok && ld.Op == token.MUL {
+		// a pointer variable whose address was handed to a decoder (json.Unmarshal(data, &p)): JSON null
+		// leaves it nil, so it is dereferenced only where it is known to be non-nil
+		if cell, ok := ld.X.(*ssa.Alloc); ok && cell.Referrers() != nil {
+			decoded := false
+			for _, r := range *cell.Referrers() {
+				var v ssa.Value = cell
+				_ = v
+				if mi, ok := r.(*ssa.MakeInterface); ok && mi.Referrers() != nil {
+					for _, r2 := range *mi.Referrers() {
+						if c, ok := r2.(ssa.CallInstruction); ok {
+							if callee := c.Common().StaticCallee(); callee != nil {
+								switch callee.String() {
+								case "encoding/json.Unmarshal", "(*encoding/json.Decoder).Decode":
+									decoded = true
+								}
+							}
+						}
+					}
+				}
+			}
+			if pt, ok := ld.Type().Underlying().(*types.Pointer); ok && decoded {
+				_ = pt
+				if pv, ok := fr.valOK(ptr); ok && pv.K == KRef {
+					f.oblige(st, fmt.Sprintf("%s#decoded-pointer-used-only-when-non-nil:%s", fnShortName(fr.fn), valueLabel(cell)), "safety", f.sweepTags, not(eq(pv.Tm, "0")),
+						"a pointer that a JSON decoder may have set to nil (JSON null) is dereferenced only where it is known to be non-nil", posStr(f.e.fset, pos))
+				}
+			}
+		}
+		return
+	}
 	ex, ok := ptr.(*ssa.Extract)
 	if !ok {
 		return
